@@ -121,7 +121,7 @@ theorem checkFrom_get {α : Type} {f : Nat → α → Bool} : ∀ {l : List α} 
 
 /-- the decidable well-formedness test -/
 def checkTables (t : Tables) (h : Hints) : Bool :=
-  decide (t.nTerm ≤ t.start) && checkFrom (rowOK t h) 0 t.action.toList && checkFrom (gotoRowOK h) 0 t.goto.toList
+  decide (t.nTerm ≤ t.start) && t.prods.toList.all (fun p => decide (t.nTerm ≤ p.1)) && checkFrom (rowOK t h) 0 t.action.toList && checkFrom (gotoRowOK h) 0 t.goto.toList
 
 /-- the grammar of the tables: `Grammar.Productions` without the augmented production 0 (`S' → start`), which no
     reduce action refers to (a reduce is `t < 0`, production `-t ≥ 1`) -/
@@ -414,7 +414,7 @@ theorem accepted_derivable {t : Tables} (hok : TablesOK t) {toks ps : List Nat} 
 
 theorem start_nonterminal {t : Tables} {h : Hints} (hc : checkTables t h = true) : t.nTerm ≤ t.start := by
   simp only [checkTables, Bool.and_eq_true, decide_eq_true_eq] at hc
-  exact hc.1.1
+  exact hc.1.1.1
 
 /-- every token of an accepted input is a terminal of the tables -/
 theorem accepts_terminals {t : Tables} {h : Hints} (hc : checkTables t h = true) {c : Config} {r : Res}
@@ -475,5 +475,225 @@ theorem accepted_rule {t : Tables} (hok : TablesOK t) {toks ps : List Nat} (h0 :
   | nt hm hrhs hnil =>
     cases hnil
     exact ⟨_, hm, by simpa using hrhs⟩
+
+/-! ## the reduction sequence is a right-most derivation, in reverse -/
+
+theorem lhs_nonterminal {t : Tables} {h : Hints} (hc : checkTables t h = true) {p lhs : Nat} {rhs : List Nat}
+    (hp : t.prods[p]? = some (lhs, rhs)) : t.nTerm ≤ lhs := by
+  simp only [checkTables, Bool.and_eq_true, List.all_eq_true, decide_eq_true_eq] at hc
+  have hm : (lhs, rhs) ∈ t.prods.toList := List.mem_of_getElem? (Array.getElem?_toList ▸ hp : t.prods.toList[p]? = some (lhs, rhs))
+  exact hc.1.1.2 _ hm
+
+/-- one right-most derivation step with production `p`: `α A u ⇒ α rhs u` where `A → rhs` is production `p`, `A` is
+    a nonterminal and `u` consists of terminals only (so `A` is the right-most nonterminal) -/
+inductive RmStep (t : Tables) (p : Nat) : List Nat → List Nat → Prop
+  | mk {α u : List Nat} {lhs : Nat} {rhs : List Nat} : t.prods[p]? = some (lhs, rhs) → t.nTerm ≤ lhs →
+      (∀ x ∈ u, x < t.nTerm) → RmStep t p (α ++ lhs :: u) (α ++ rhs ++ u)
+
+/-- `RmDeriv t ps β w`: `β ⇒rm* w`, the productions used being `ps` read BACKWARDS (`ps` is in reduction order:
+    its head is the first reduction of the parse, i.e. the last step of the derivation) -/
+inductive RmDeriv (t : Tables) : List Nat → List Nat → List Nat → Prop
+  | nil {β : List Nat} : RmDeriv t [] β β
+  | cons {p : Nat} {qs β β1 w : List Nat} : RmDeriv t qs β β1 → RmStep t p β1 w → RmDeriv t (p :: qs) β w
+
+theorem accepts_rightmost {t : Tables} {h : Hints} (hc : checkTables t h = true) {c : Config} {r : Res}
+    (hr : Run t c r) : ∀ ps, r = .accept ps → Chain h c.stack → 0 ∉ c.input →
+    RmDeriv t ps [t.start] ((symsOf h c.stack).reverse ++ c.input) := by
+  induction hr with
+  | @shift c c' r hs _ ih =>
+    intro ps hps hch h0
+    obtain ⟨s, rest, a, hst, ha, hpos, rfl⟩ := step_shift_inv hs
+    obtain ⟨tok, hm, htok⟩ := actionOf_cell ha
+    have hla := htok (by omega)
+    obtain ⟨⟨hne, _⟩, he⟩ := shift_cell hc hm hpos
+    match hin : c.input with
+    | [] => simp [lookahead, hin] at hla; exact absurd hla hne
+    | x :: inp =>
+      simp only [lookahead, hin, List.headD_cons] at hla
+      subst hla
+      rw [hst] at hch
+      obtain ⟨hch', hsy⟩ := edgeOK_chain he hch
+      have := ih ps hps (by simpa [hst] using hch')
+        (by intro hmem; apply h0; simp only [hin, List.tail_cons] at hmem; rw [hin]; exact List.mem_cons_of_mem _ hmem)
+      simpa [hst, hsy, hin] using this
+  | @reduce c c' p r hs hr' ih =>
+    intro ps hps hch h0
+    have hrun : Run t c (r.cons p) := Run.reduce hs hr'
+    obtain ⟨s, rest, a, lhs, rhs, s', below, g, hst, ha, hneg, hp, hprod, hdrop, hg, rfl⟩ := step_reduce_inv hs
+    obtain ⟨tok, hm, _⟩ := actionOf_cell ha
+    have hred := reduce_cell hc hm hneg
+    rw [← hp] at hred
+    simp only [reduceOK, hprod] at hred
+    have hpop := pop_ok h rhs.reverse c.stack hch (fun s0 e => by
+      rw [hst] at e; simp at e; subst e; exact hred)
+    simp only [List.length_reverse, hdrop] at hpop
+    obtain ⟨hsy, hch'⟩ := hpop
+    obtain ⟨hch'', hsy'⟩ := edgeOK_chain (goto_cell hc hg) hch'
+    obtain ⟨ps', rfl⟩ : ∃ ps', r = .accept ps' := by
+      cases r <;> simp [Res.cons] at hps
+      exact ⟨_, rfl⟩
+    have hterm := accepts_terminals hc hrun _ rfl h0
+    have hih := ih _ rfl hch'' h0
+    simp only [hsy', List.reverse_cons, List.append_assoc, List.singleton_append] at hih
+    have hstep := RmStep.mk (α := (symsOf h (s' :: below)).reverse) hprod (lhs_nonterminal hc hprod) hterm
+    simp only [Res.cons, Res.accept.injEq] at hps
+    subst hps
+    refine RmDeriv.cons hih ?_
+    simpa [hsy, List.reverse_append] using hstep
+  | @accept c hs =>
+    intro ps hps hch h0
+    cases hps
+    obtain ⟨s, rest, hst, ha⟩ := step_accept_inv hs
+    obtain ⟨tok, hm, htok⟩ := actionOf_cell ha
+    have hla := htok (by omega)
+    subst hla
+    obtain ⟨hz, hacc⟩ := accept_cell hc hm
+    have hin : c.input = [] := by
+      match hi : c.input with
+      | [] => rfl
+      | x :: inp =>
+        simp only [lookahead, hi, List.headD_cons] at hz
+        subst hz
+        rw [hi] at h0
+        exact absurd List.mem_cons_self h0
+    simp only [acceptOK, Bool.and_eq_true, bne_iff_ne, ne_eq, beq_iff_eq, List.all_eq_true] at hacc
+    rw [hst] at hch
+    match rest, hch with
+    | [], hch => exact absurd hch hacc.1.1
+    | [s'], hch =>
+      simp only [hst, symsOf, hacc.1.2, List.reverse_cons, List.reverse_nil, List.nil_append, hin, List.append_nil]
+      exact RmDeriv.nil
+    | s' :: s'' :: r', hch =>
+      obtain ⟨_, hp, hch'⟩ := hch
+      have := hacc.2 _ hp
+      obtain ⟨hne, _⟩ := hch'
+      exact absurd this hne
+  | error _ => intro ps hps; cases hps
+  | crash _ => intro ps hps; cases hps
+
+/-- **The reductions of an accepting run are a right-most derivation of the input, in reverse.** -/
+theorem accepted_rightmost {t : Tables} (hok : TablesOK t) {toks ps : List Nat} (h0 : 0 ∉ toks)
+    (hr : Run t (init toks) (.accept ps)) : RmDeriv t ps [t.start] toks := by
+  obtain ⟨h, hc⟩ := hok
+  have := accepts_rightmost hc hr ps rfl (by simp [init, Chain]) (by simpa [init] using h0)
+  simpa [init, symsOf] using this
+
+/-! ## blocks of steps and the frame property (used for completeness on regular fragments)
+
+The machine looks at the FIRST unread token only: a block of `n` shift/reduce steps that ends with unread input
+left runs identically when more input follows.  A loop of the token language whose body brings the state stack
+back to where it started is then closed by induction, the body itself being evaluated by the kernel. -/
+
+/-- `n` steps, all of them shifts or reduces: the configuration reached and the productions reduced -/
+def stepsN (t : Tables) : Nat → Config → Option (Config × List Nat)
+  | 0, c => some (c, [])
+  | n + 1, c =>
+    match step t c with
+    | .shift c' => stepsN t n c'
+    | .reduce p c' => (stepsN t n c').map fun (c'', r) => (c'', p :: r)
+    | _ => none
+
+def Res.prepend (reds : List Nat) (r : Res) : Res := reds.foldr Res.cons r
+
+theorem run_of_stepsN {t : Tables} : ∀ (n : Nat) {c c' : Config} {reds : List Nat} {r : Res},
+    stepsN t n c = some (c', reds) → Run t c' r → Run t c (Res.prepend reds r) := by
+  intro n
+  induction n with
+  | zero => intro c c' reds r h hr; simp [stepsN] at h; obtain ⟨rfl, rfl⟩ := h; simpa [Res.prepend] using hr
+  | succ n ih =>
+    intro c c' reds r h hr
+    unfold stepsN at h
+    split at h
+    · next c1 hs => exact Run.shift hs (ih h hr)
+    · next p c1 hs =>
+      cases h1 : stepsN t n c1 with
+      | none => simp [h1] at h
+      | some v =>
+        obtain ⟨c2, r2⟩ := v
+        simp [h1] at h
+        obtain ⟨rfl, rfl⟩ := h
+        exact Run.reduce hs (ih h1 hr)
+    · cases h
+
+/-- `step` with more input behind a non-empty input -/
+theorem step_frame (t : Tables) (st : List Nat) (x : Nat) (inp rest : List Nat) :
+    step t ⟨st, x :: inp ++ rest⟩ =
+      match step t ⟨st, x :: inp⟩ with
+      | .shift c' => .shift ⟨c'.stack, c'.input ++ rest⟩
+      | .reduce p c' => .reduce p ⟨c'.stack, c'.input ++ rest⟩
+      | o => o := by
+  simp only [step, lookahead, List.cons_append, List.headD_cons, List.tail_cons]
+  cases st with
+  | nil => rfl
+  | cons s st' =>
+    simp only
+    cases actionOf t s x with
+    | none => rfl
+    | some a =>
+      simp only
+      split
+      · rfl
+      · split
+        · cases t.prods[(-a).toNat]? with
+          | none => rfl
+          | some lr =>
+            obtain ⟨lhs, rhs⟩ := lr
+            simp only
+            cases List.drop rhs.length (s :: st') with
+            | nil => rfl
+            | cons s' below =>
+              simp only
+              cases assoc lhs (t.goto.getD s' []) <;> rfl
+        · rfl
+
+theorem stepsN_input_nil {t : Tables} : ∀ (n : Nat) {st : List Nat} {c' : Config} {reds : List Nat},
+    stepsN t n ⟨st, []⟩ = some (c', reds) → c'.input = [] := by
+  intro n
+  induction n with
+  | zero => intro st c' reds h; simp [stepsN] at h; obtain ⟨rfl, _⟩ := h; rfl
+  | succ n ih =>
+    intro st c' reds h
+    unfold stepsN at h
+    split at h
+    · next c1 hs =>
+      obtain ⟨s, rest, a, _, _, _, rfl⟩ := step_shift_inv hs
+      exact ih h
+    · next p c1 hs =>
+      obtain ⟨s, rest, a, lhs, rhs, s', below, g, _, _, _, _, _, _, _, rfl⟩ := step_reduce_inv hs
+      cases h1 : stepsN t n ⟨g :: s' :: below, []⟩ with
+      | none => simp [h1] at h
+      | some v =>
+        obtain ⟨c2, r2⟩ := v
+        simp [h1] at h
+        obtain ⟨rfl, _⟩ := h
+        exact ih h1
+    · cases h
+
+/-- the frame property of a block that leaves input unread -/
+theorem stepsN_frame {t : Tables} : ∀ (n : Nat) {st inp : List Nat} {c' : Config} {reds : List Nat},
+    stepsN t n ⟨st, inp⟩ = some (c', reds) → c'.input ≠ [] →
+    ∀ rest, stepsN t n ⟨st, inp ++ rest⟩ = some (⟨c'.stack, c'.input ++ rest⟩, reds) := by
+  intro n
+  induction n with
+  | zero => intro st inp c' reds h _ rest; simp [stepsN] at h; obtain ⟨rfl, rfl⟩ := h; rfl
+  | succ n ih =>
+    intro st inp c' reds h hne rest
+    cases inp with
+    | nil => exact absurd (stepsN_input_nil _ h) hne
+    | cons x inp =>
+      unfold stepsN at h ⊢
+      rw [step_frame]
+      split at h
+      · next c1 hs => exact ih (st := c1.stack) (inp := c1.input) h hne rest
+      · next p c1 hs =>
+        skip
+        cases h1 : stepsN t n c1 with
+        | none => simp [h1] at h
+        | some v =>
+          obtain ⟨c2, r2⟩ := v
+          simp [h1] at h
+          obtain ⟨rfl, rfl⟩ := h
+          rw [ih h1 hne rest]; rfl
+      · cases h
 
 end MontePyVerif.LR
